@@ -359,6 +359,12 @@ func (cw *chunkWriter) writeHeader(p []byte) {
 			} else {
 				w.req.Body.Close()
 			}
+		} else {
+			// The client sent "Expect: 100-continue" and no "100 Continue" has been
+			// sent: it may never send the request body, so it is unknown where the
+			// next request starts. Don't reuse the connection (and don't let
+			// finishRequest drain the declared body length from it).
+			w.closeAfterReply = true
 		}
 	}
 
